@@ -717,3 +717,190 @@ Proof.
                [("auxiliarycoordinate0", ["domainaxis7"])] true false None).
   split; reflexivity.
 Qed.
+
+(* ===================================================================== *)
+(* (c) Data.__str__ is total: every element look-up it performs is defined *)
+(* ===================================================================== *)
+Lemma item_at_ok d i :
+  wf_ddata d = true -> dd_array d = true -> (i < dsize d)%nat -> exists e, item_at d i = Ok e.
+Proof.
+  unfold wf_ddata, item_at. intros W A L. rewrite A in W. simpl in W. apply Nat.eqb_eq in W.
+  destruct (nth_error (dd_elems d) i) as [e|] eqn:E; [eauto|].
+  apply nth_error_None in E. lia.
+Qed.
+
+Lemma guarded_ok {A} catch (c : cres A) dflt :
+  cres_caught catch c = true -> exists a, guarded catch c dflt = Ok a.
+Proof.
+  unfold cres_caught, guarded. destruct c as [a|e]; [eauto|]. intro H. rewrite H. eauto.
+Qed.
+
+(* when the first element exists, so does the last one; the second one exists
+   as soon as the size is neither 0 nor 1 - the only case in which __str__
+   asks for it *)
+Lemma first_element_inv d e :
+  first_element d = Ok e -> dd_array d = true /\ dsize d <> 0%nat.
+Proof.
+  unfold first_element. destruct (dd_array d); simpl; [|discriminate].
+  destruct (Nat.eqb (dsize d) 0) eqn:E; [discriminate|]. apply Nat.eqb_neq in E. auto.
+Qed.
+
+Lemma last_element_ok d :
+  wf_ddata d = true -> dd_array d = true -> dsize d <> 0%nat -> exists e, last_element d = Ok e.
+Proof.
+  intros W A N. unfold last_element. rewrite A. simpl.
+  apply Nat.eqb_neq in N. rewrite N. apply Nat.eqb_neq in N.
+  apply item_at_ok; [exact W|exact A|lia].
+Qed.
+
+Lemma second_element_ok d :
+  wf_ddata d = true -> dd_array d = true -> dsize d <> 0%nat -> dsize d <> 1%nat ->
+  exists e, second_element d = Ok e.
+Proof.
+  intros W A N0 N1. unfold second_element. rewrite A. simpl.
+  destruct (Nat.leb (dsize d) 1) eqn:E.
+  - apply Nat.leb_le in E. lia.
+  - apply item_at_ok; [exact W|exact A|lia].
+Qed.
+
+Theorem data_str_total : forall k d,
+  wf_ddata d = true -> conversions_caught k d = true -> exists t, data_str k d = Ok t.
+Proof.
+  intros k d W C. unfold conversions_caught in C.
+  apply andb_true_iff in C as [C C3]. apply andb_true_iff in C as [C1 C2].
+  unfold data_str.
+  destruct (first_element d) as [first|] eqn:F; [|eauto].
+  destruct (first_element_inv d first F) as (A & N0).
+  match goal with |- exists t, rbind ?X ?K = Ok t =>
+    assert (H : exists out, X = Ok out); [|destruct H as (out & E); rewrite E; simpl; eauto] end.
+  destruct (Nat.eqb (dsize d) 1) eqn:E1.
+  - destruct (is_reftime (dd_units d)).
+    + destruct (guarded_ok (k_single k) (dd_conv1 d) "??" C1) as (a & G). rewrite G. simpl. eauto.
+    + simpl. eauto.
+  - apply Nat.eqb_neq in E1.
+    destruct (last_element_ok d W A N0) as (last & L). rewrite L. simpl.
+    assert (P : exists fl, (if is_reftime (dd_units d)
+                            then guarded (k_pair k) (dd_conv2 d) ("??", "??")
+                            else Ok (elem_txt first, elem_txt last)) = Ok fl).
+    { destruct (is_reftime (dd_units d)); [apply guarded_ok; exact C2|eauto]. }
+    destruct P as (fl & P). rewrite P. simpl.
+    destruct (Nat.ltb 3 (dsize d)); [eauto|].
+    destruct (last_dim_3 (dd_shape d)).
+    + destruct (second_element_ok d W A N0 E1) as (mid & M). rewrite M. simpl.
+      assert (Q : exists m, (if is_reftime (dd_units d)
+                             then guarded (k_middle k) (dd_convm d) "??"
+                             else Ok (elem_txt mid)) = Ok m).
+      { destruct (is_reftime (dd_units d)); [apply guarded_ok; exact C3|eauto]. }
+      destruct Q as (m & Q). rewrite Q. simpl. eauto.
+    + destruct (Nat.eqb (dsize d) 3); eauto.
+Qed.
+
+Lemma repaired_catches_all d : conversions_caught k_repaired d = true.
+Proof.
+  unfold conversions_caught, cres_caught, k_repaired; simpl.
+  destruct (dd_conv1 d), (dd_conv2 d), (dd_convm d); reflexivity.
+Qed.
+
+(* the repaired code: whatever the conversions raise *)
+Theorem data_str_total_repaired : forall d,
+  wf_ddata d = true -> exists t, data_str k_repaired d = Ok t.
+Proof. intros d W. apply data_str_total; [exact W|apply repaired_catches_all]. Qed.
+
+(* data that are not reference times never reach a conversion *)
+Theorem data_str_total_plain : forall k d,
+  wf_ddata d = true -> is_reftime (dd_units d) = false -> exists t, data_str k d = Ok t.
+Proof.
+  intros k d W R.
+  set (d' := mkDD (dd_array d) (dd_units d) (dd_cal d) (dd_shape d) (dd_elems d)
+                  (COk "") (COk ("", "")) (COk "")).
+  assert (E : data_str k d = data_str k d').
+  { unfold data_str. change (dd_units d') with (dd_units d). rewrite R.
+    reflexivity. }
+  rewrite E. apply data_str_total; [exact W|reflexivity].
+Qed.
+
+(* non-vacuity and what the text looks like: sizes 0, 1, 2, 3, 3 as a column, 4;
+   a masked element; reference times with an unconvertible middle element *)
+Example data_str_examples :
+  let plain sh els := mkDD true (UStr "K") None sh els (COk "") (COk ("", "")) (COk "") in
+  data_str k_repaired (plain [0%nat] []) = Ok " K" /\
+  data_str k_repaired (plain [] [EVal "9"]) = Ok "9 K" /\
+  data_str k_repaired (plain [2%nat] [EVal "1"; EMasked]) = Ok "[1, --] K" /\
+  data_str k_repaired (plain [1%nat; 3%nat] [EVal "1"; EVal "2"; EVal "3"]) = Ok "[[1, 2, 3]] K" /\
+  data_str k_repaired (plain [3%nat; 1%nat] [EVal "1"; EVal "2"; EVal "3"]) = Ok "[[1, ..., 3]] K" /\
+  data_str k_repaired (plain [2%nat; 2%nat] [EVal "1"; EVal "2"; EVal "3"; EVal "4"]) = Ok "[[1, ..., 4]] K" /\
+  data_str k_repaired (mkDD true (UStr "days since 2000-01-01") (Some "noleap") [3%nat]
+                            [EVal "1.0"; EVal "1e+20"; EVal "3.0"]
+                            (COk "a") (COk ("a", "c")) (CErr XOverflow)) = Ok "[a, ??, c] noleap" /\
+  data_str k_repaired (mkDD false UOther (Some "x") [] [] (COk "") (COk ("", "")) (COk "")) = Ok " ?? x".
+Proof. cbv zeta. splits; reflexivity. Qed.
+
+(* ---- the descriptions of a field or domain including every Data they format ---- *)
+Theorem describe_all_total : forall s,
+  inv_full s = true -> exists d, describe_all true k_repaired s = Ok d.
+Proof.
+  intros s I. unfold inv_full in I. apply andb_true_iff in I as [I1 I2].
+  unfold describe_all. destruct (describe_total _ I1) as (a & E). rewrite E. simpl.
+  destruct (mapM_ok (data_str k_repaired) (df_datas s)) as (t & E2).
+  { intros d Hd. rewrite forallb_forall in I2. apply data_str_total_repaired. exact (I2 d Hd). }
+  rewrite E2. simpl. eauto.
+Qed.
+
+(* the same for the code before the repair, under the guard that the
+   conversions raise nothing but ValueError / OverflowError *)
+Theorem describe_all_total_before : forall s,
+  inv_full s = true -> forallb (conversions_caught k_before) (df_datas s) = true ->
+  exists d, describe_all true k_before s = Ok d.
+Proof.
+  intros s I G. unfold inv_full in I. apply andb_true_iff in I as [I1 I2].
+  unfold describe_all. destruct (describe_total _ I1) as (a & E). rewrite E. simpl.
+  destruct (mapM_ok (data_str k_before) (df_datas s)) as (t & E2).
+  { intros d Hd. rewrite forallb_forall in I2, G. apply data_str_total; [exact (I2 d Hd)|exact (G d Hd)]. }
+  rewrite E2. simpl. eauto.
+Qed.
+
+(* ===================================================================== *)
+(* (d) the cell methods come back in the order in which they are applied  *)
+(* ===================================================================== *)
+Lemma filter_map_den l :
+  filter unkeyed_entry (map den_item l) = map den_item (filter unkeyed_item l).
+Proof.
+  induction l as [|it r IH]; simpl; [reflexivity|].
+  unfold unkeyed_entry at 1, unkeyed_item at 1, den_item at 1; simpl.
+  destruct (i_key it); simpl; rewrite IH; reflexivity.
+Qed.
+
+Theorem commands_preserve_order : forall x dn f cs,
+  compile_fld true x dn f = Ok cs -> wf_fld f = true ->
+  exists e o, run cs [] = Some e /\ assoc x e = Some (VObj o) /\
+    filter unkeyed_entry (o_items o) = map den_item (filter unkeyed_item (f_items f)).
+Proof.
+  intros x dn f cs C W. destruct (commands_roundtrip_field x dn f cs C W) as (e & R & A).
+  exists e, (den_fld f). splits; [exact R|exact A|]. unfold den_fld; simpl. apply filter_map_den.
+Qed.
+
+Lemma filter_unkeyed_cm cms : filter unkeyed_item (cm_items cms) = cm_items cms.
+Proof. induction cms as [|kc r IH]; simpl; [reflexivity|]. rewrite IH. reflexivity. Qed.
+
+Lemma filter_unkeyed_app a b : filter unkeyed_item (a ++ b) = filter unkeyed_item a ++ filter unkeyed_item b.
+Proof. apply filter_app. Qed.
+
+(* a field whose keyed constructs are [keyed] and whose cell methods, in
+   application order and under ANY keys, are [cms]: the rebuilt field holds
+   exactly those cell methods, in that order *)
+Theorem commands_cell_methods_in_order : forall x dn fv mid keyed cms post cs,
+  forallb (fun it => negb (unkeyed_item it)) keyed = true ->
+  let f := mkF fv mid (keyed ++ cm_items cms) post in
+  compile_fld true x dn f = Ok cs -> wf_fld f = true ->
+  exists e o, run cs [] = Some e /\ assoc x e = Some (VObj o) /\
+    filter unkeyed_entry (o_items o) = map (fun kc => (den_acon (snd kc), None, None)) cms.
+Proof.
+  intros x dn fv mid keyed cms post cs K f C W.
+  destruct (commands_preserve_order x dn f cs C W) as (e & o & R & A & F).
+  exists e, o. splits; [exact R|exact A|]. rewrite F. unfold f; cbn [f_items].
+  rewrite filter_unkeyed_app, filter_unkeyed_cm.
+  assert (Z : filter unkeyed_item keyed = []).
+  { clear -K. induction keyed as [|it r IH]; simpl; [reflexivity|]. simpl in K.
+    apply andb_true_iff in K as [K1 K2]. apply negb_true_iff in K1. rewrite K1. apply IH. exact K2. }
+  rewrite Z. simpl. unfold cm_items. rewrite map_map. reflexivity.
+Qed.
